@@ -2,7 +2,10 @@ SPEC = dict(
     id="C10",
     bin="c10",
     coq_dir="C10",
-    coq_targets=["C10/Proofs.vo", "C10/PointProofs.vo", "C10/IupProofs.vo", "C10/IupUnforced.vo", "C10/Examples.vo"],
+    coq_targets=["C10/Proofs.vo", "C10/PointProofs.vo", "C10/IupProofs.vo", "C10/IupUnforced.vo", "C10/Examples.vo",
+                 "C10/ApplyModel.vo", "C10/ApplyProofs.vo", "C10/ApplyExamples.vo",
+                 "C10/IupApplyModel.vo", "C10/IupApplyProofs.vo", "C10/IupApplyOrder.vo", "C10/IupApplyExamples.vo"],
+    props=["C10/Props.v", "C10/ApplyProps.v", "C10/IupApplyProps.v"],
     allowed_axioms=[],
     level_text=("Unbounded Coq theorems about an executable model of the glyph-variation codecs and of the IUP optimiser's "
                 "structure: PackedDeltas and PackedPointNumbers round trips for every list of i32 / every non-decreasing u16 "
@@ -16,20 +19,30 @@ SPEC = dict(
                 "tolerance after the spec's inference; gvar read-back; outline at a location = default + sum scalar*delta up to "
                 "final rounding, drawn by skrifa from a FontBuilder font at region start/peak/end) are checked on the "
                 "implementation by exact-rational oracles over ~860k optimiser inputs (exhaustive small contours), 270 gvar "
-                "tables (incl. exact 63..257-point sparse tuples, both read paths) and 11.9k draws (glyphs with and without data, composites, reused memory, both scalers) — partial for those clauses."),
+                "tables (incl. exact 63..257-point sparse tuples, both read paths) and 11.9k draws (glyphs with and without data, composites, reused memory, both scalers) — partial for those clauses. "
+                "Round 7 (application side, coq/C10/Apply*.v, IupApply*.v): exact 16.16 models of TupleVariation::compute_scalar, accumulate_dense/sparse_deltas and of skrifa's "
+                "interpolate_deltas/shift/interpolate + unscaled to_i32 application, with unbounded theorems: compute_scalar = product of per-axis tent fractions with one "
+                "round-half-away per axis, None outside any tent, ONE at the peaks, result in (0, ONE]; accumulation adds exactly delta*scalar (no rounding for i16 deltas), "
+                "leaves unreferenced points alone, and the fold over a list of tuples is bit-for-bit order independent (any permutation); IUP application never changes a "
+                "referenced point, writes only inside its ranges, and per coordinate is clamp-outside / linear-inside with the exact expression out1 + (p-i1)*rha(out2-out1, i2-i1). "
+                "These models are tied on every run: ~4.1k cases of the real compute_scalar / accumulate_* (gvar built by write-fonts, boundary coords, invalid regions, short/long buffers, wrap-around) "
+                "and ~600 glyph draws (skrifa FreeType-style scaler, unscaled) compared point-exactly with the model's unscaled_points."),
     level_note=("Trusted: Coq kernel; the hand-written model coq/C10/Model.v (agreement with the Rust code is checked, not proved); "
                 "the rational kernel equals the f64 kernel only where the harness's f64 mirror and exact arithmetic agree (cases "
                 "where they do not are not sent to the model; none occurred). Not proved: DP optimality, "
-                "the kernel's meaning, tent scalars / accumulation / skrifa interpolation (oracle only). "
+                "the kernel's meaning; the composition default + sum scalar*delta as one closed-form theorem; the run-byte readers of the accumulate fast paths; the f32 (HarfBuzz-style) scalar/scaler. "
                 "One genuine defect found (F-C10-1, fixed in /repo 5894623; its reproducer stays in the oracle; see notes/C10.md)."),
     technique="Coq proof (induction over run segmentation and over the DP chain; lia; finite sweeps for control bytes) over a hand-written Gallina model + vm_compute correspondence with write-fonts/read-fonts + exact-rational implementation oracles incl. skrifa draws",
     modelled=["write-fonts/src/tables/variations.rs: PackedDeltas::{iter_runs,compute_size}, PackedDeltaRun::*, PackedPointNumbers::{iter_runs,write_into,compute_size,validate}, PackedPointRun::*",
               "read-fonts/src/tables/variations.rs: DeltaRunType::new, DeltaRunIter, count_all_deltas, PackedDeltas::{consume_all,iter}, PackedPointNumbers::{count_and_count_bytes,total_len,split_off_front,iter}, PackedPointNumbersIter, PointRunIter",
               "write-fonts/src/tables/gvar/iup.rs: iup_delta_optimize, iup_contour_optimize (both branches), iup_contour_optimize_dp, iup_must_encode; kernel must_encode_at/iup_segment/can_iup_in_between as an exact rational re-implementation",
-              "write-fonts/src/tables/gvar.rs: GlyphDeltas::{pick_best_point_number_repr,build}, GlyphTupleVariationData::{compute_size,write_into}, GlyphVariations::compute_shared_points"],
+              "write-fonts/src/tables/gvar.rs: GlyphDeltas::{pick_best_point_number_repr,build}, GlyphTupleVariationData::{compute_size,write_into}, GlyphVariations::compute_shared_points",
+              "read-fonts/src/tables/variations.rs: TupleVariation::compute_scalar, accumulate_dense_deltas::<Fixed>, accumulate_sparse_deltas::<Fixed> (on decoded deltas)",
+              "skrifa/src/outline/glyf/deltas.rs: interpolate_deltas, Jiggler::{shift,interpolate}, simple_glyph per-tuple closure (C=i32, D=Fixed); outline/glyf/mod.rs unscaled delta rounding (Fixed::to_i32)"],
     not_covered=["optimality of the IUP dynamic programme (only soundness is proved)",
                  "f64 kernel bit-exactness (no Flocq model): rational kernel on inputs where f64 decisions are exact",
-                 "TupleVariation::compute_scalar, accumulate_dense/sparse_deltas, skrifa deltas.rs interpolate_deltas: implementation-only draw oracle",
+                 "read_dense_deltas/read_sparse_deltas run-byte readers (accumulate models take decoded deltas; truncated-data error paths untested by the model); compute_scalar_f32 and HarfBuzzScaler (f32): oracle only; composite_glyph delta application: oracle only",
+                 "no single theorem composing scalar, accumulation, inference and final rounding into default + sum scalar*delta (unscaled_points is compared with drawn points, not characterised)",
                  "gvar container (offsets array, short/long offsets, shared tuples): oracle + hand parser, not modelled",
                  "non-integer input deltas to the optimiser (rounding interplay) are not generated"],
     assumptions=["Rust integer semantics as in coq/Lib/RustInt.v; f64 +,-,*,/ and comparisons are IEEE in source order (no FMA contraction)"],
